@@ -2,8 +2,7 @@ import SaoVerif
 /-! `#print axioms` of every property theorem (parsed by scripts/check.py). -/
 open SaoVerif
 #print axioms C02_randomIndex_exact
-#print axioms C02_nextSuper_hangs
-#print axioms C02_pickSuper_hangs
+#print axioms C02_cursor_in_range
 #print axioms C15_full
 #print axioms C15_getSps_rejects
 #print axioms randomIndex_spec
